@@ -310,7 +310,10 @@ class Simplex:
                         self.nbasic_basic[var_name].add(s)        
             
                     if var_name not in self.mapping:
-                        self.mapping.update({var_name : 0, s : 0})
+                        self.mapping[var_name] = 0
+                    if s not in self.mapping:
+                        # the slack variable stands for coeff * var_name
+                        self.mapping[s] = coeff * self.mapping[var_name]
                     self.bound[s] = (-math.inf, math.inf)
                     if var_name not in self.bound:
                         self.bound[var_name] = (-math.inf, math.inf)
@@ -375,7 +378,10 @@ class Simplex:
                     self.basic.add(s)
                     self.non_basic.add(var_name)
                     if var_name not in self.mapping:
-                        self.mapping.update({var_name : 0, s : 0})
+                        self.mapping[var_name] = 0
+                    if s not in self.mapping:
+                        # the slack variable stands for coeff * var_name
+                        self.mapping[s] = coeff * self.mapping[var_name]
                     self.bound[s] = (-math.inf, math.inf)
                     if var_name not in self.nbasic_basic:
                         self.nbasic_basic[var_name] = {s}
